@@ -193,6 +193,10 @@ class Unknown:
     def __pyvc_getattr__(self, sx, attr, st, node):
         return [R(st, Conc(Unknown(self.why + "." + attr)))]
 
+    def __pyvc_getitem__(self, sx, k, st, node):
+        # an item of a value nothing is known about: some value, or the lookup fails
+        return [R(st, Conc(Unknown(self.why + "[...]"))), R(st.fork(), None, Exc("Exception", exact=False))]
+
     def __pyvc_call__(self, sx, args, kwargs, st, node):
         sx.uncontracted.append("%s (line %s)" % (self.why, getattr(node, "lineno", "?")))
         if sx.spec_mode:
@@ -798,9 +802,16 @@ class SX:
         try:
             vals = [self.lift(v) if isinstance(v, Conc) else self.deref(v, st) for v in vals]
         except Unsupported:
+            if not self.spec_mode and getattr(self, "mutated_names", None):
+                return Conc(Unknown("a list literal of unmodelled values in a function that mutates local lists in place (%s; line %s)" % (
+                    ", ".join(sorted(self.mutated_names)), getattr(node, "lineno", "?"))))
             return Conc(HetList(raw))
         if elem_ty is None and vals and any(isinstance(v, (Ref, Func, Conc)) or v.ty is None or v.term is None or v.ty != vals[0].ty for v in vals):
             # a list literal of mixed python types (e.g. a protocol frame ["OK", id, True, ""]): kept as a python-level tuple
+            if not self.spec_mode and getattr(self, "mutated_names", None):
+                # ... unless the function mutates some local list in place: then nothing is known about it (contract `true`)
+                return Conc(Unknown("a mixed-type list literal in a function that mutates local lists in place (%s; line %s)" % (
+                    ", ".join(sorted(self.mutated_names)), getattr(node, "lineno", "?"))))
             return Conc(HetList(raw))
         if elem_ty is None:
             if not vals:
